@@ -158,7 +158,8 @@ def rule_ctor(ctx):
     for p in ps:
         ctx.check("C19.ctor", "_" + p in assigned, where(CFG, "Config.__init__", init.lineno), "parameter " + p, "constructor parameter %r is not stored: the field is lost on load" % p, "stored")
     # accessors
-    for name, fn in cls.methods.items():
+    for fn in cls.all_defs:
+        name = fn.name
         decs = [unparse(d) for d in fn.decorator_list]
         w = where(CFG, "Config." + name, fn.lineno)
         if "property" in decs:
